@@ -179,9 +179,12 @@ impl VM {
         }
 
         // reset some state
+        // (a previous run that ended with an error may have left call frames and operands behind)
         self.instructions = code.instructions;
         self.ip = 0;
         self.bp = 0;
+        self.stack.clear();
+        self.frames.truncate(1);
         self.frames[0].ip = 0;
         self.frames[0].base_pointer = 0;
 
